@@ -104,12 +104,20 @@ def parseReq (s : String) : Option (ReqSpec × Char × Char) :=
     some ({ rq with finish := fv, pre := pv }, mc, bc)
   | _ => none
 
-def parseStep (n : Nat) (s : String) : Option Step :=
+/-- backend #k of the cluster (enumeration order) as global id; 1000+k when there is no such backend -/
+def flipTarget (cfg : Cfg) (k : Nat) : Nat := (allBids cfg).getD k (1000 + k)
+
+def flipIndex (cfg : Cfg) (b : Nat) : Nat :=
+  if b ≥ 1000 then b - 1000 else (allBids cfg).idxOf b
+
+def parseStep (cfg : Cfg) (n : Nat) (s : String) : Option Step :=
   match s.toList with
   | c :: rest =>
     match (String.ofList rest).toNat? with
     | some k =>
-      if k ≥ n then none
+      if c == 'u' then (if k > 63 then none else some (.up (flipTarget cfg k)))
+      else if c == 'd' then (if k > 63 then none else some (.down (flipTarget cfg k)))
+      else if k ≥ n then none
       else if c == 'i' then some (.inv k) else if c == 'f' then some (.fin k) else none
     | none => none
   | [] => none
@@ -120,9 +128,10 @@ def parseOp (op : String) : Option Scenario :=
     let (rm, cr, rl, h, bm, fn) ← parseParams p
     let subs ← (ss.splitOn ";").mapM parseSub
     let reqs ← (rs.splitOn ";").mapM parseReq
-    let sched ← (sc.splitOn ".").mapM (parseStep reqs.length)
+    let cfg : Cfg := ⟨rm, cr, rl, h, bm, fn, subs⟩
+    let sched ← (sc.splitOn ".").mapM (parseStep cfg reqs.length)
     if subs.length > 8 || reqs.length > 8 then none else
-    some ⟨⟨rm, cr, rl, h, bm, fn, subs⟩, reqs.map (·.1), reqs.map (·.2.1), reqs.map (·.2.2), sched⟩
+    some ⟨cfg, reqs.map (·.1), reqs.map (·.2.1), reqs.map (·.2.2), sched⟩
   | _ => none
 
 /-! ### rendering of the model result (must equal the harness' format byte for byte) -/
@@ -162,6 +171,8 @@ def renderOut (cfg : Cfg) : StepOut → String
   | .fin k act ran panicked conn =>
     "f" ++ toString k ++ ":" ++ (if panicked then "cbpanic" else "act=" ++ toString act) ++
     ";n=" ++ toString ran ++ ";cn=" ++ renderConn cfg conn
+  | .flip isUp b conn =>
+    (if isUp then "u" else "d") ++ toString (flipIndex cfg b) ++ ":cn=" ++ renderConn cfg conn
   | .bad => "bad"
 
 /-! ### resolving the `randomSelectExclude` oracle against the observed line -/
@@ -188,7 +199,7 @@ def runResolved (sc : Scenario) (implSteps : List String) : G × List (List Nat)
       let want := impl.headD ""
       let pick : List Nat :=
         match st with
-        | .fin _ => []
+        | .fin _ | .up _ | .down _ => []
         | .inv _ =>
           match space.find? fun ch =>
               match (step realPolicy sc.cfg sc.reqs g st ch).outs with
@@ -219,6 +230,7 @@ structure IStep where
   dead : Bool
   cn : List (String × Int)
   cross : Bool
+  flip : Bool := false
 
 def parseSnap (s : String) : Option (List (String × Int)) :=
   if s == "0" then some []
@@ -252,13 +264,15 @@ def parseIStep (s : String) : Option IStep :=
         match (fieldAfter "cn=" fs).bind parseSnap with
         | none => none
         | some cn =>
-          if c == 'f' then
-            some ⟨false, k, [], (body.splitOn "PANIC").length > 1, body.startsWith "dead", cn, false⟩
+          if c == 'u' || c == 'd' then
+            some ⟨false, k, [], false, false, cn, false, true⟩
+          else if c == 'f' then
+            some ⟨false, k, [], (body.splitOn "PANIC").length > 1, body.startsWith "dead", cn, false, false⟩
           else if c == 'i' then
             let panic := (body.splitOn "!PANIC").length > 1
             let evPart := ((if panic then body.splitOn "!PANIC" else body.splitOn ">").headD "")
             let evs := if evPart.isEmpty then some [] else (evPart.splitOn ",").mapM parseIEv
-            evs.map fun e => ⟨true, k, e, panic, false, cn, fieldAfter "x=" fs == some "1"⟩
+            evs.map fun e => ⟨true, k, e, panic, false, cn, fieldAfter "x=" fs == some "1", false⟩
           else none
     | [] => none
   | [] => none
